@@ -92,7 +92,7 @@ func (self *Compiler) compileCallExpr(node ast.AnalyzedCallExpression) {
 				self.insert(newOneStringInstruction(opcode, name), node.Span())
 			} else {
 				// call a global value
-				self.insert(newOneStringInstruction(Opcode_GetGlobImm, base.Ident.Ident()), node.Range)
+				self.insert(newOneStringInstruction(Opcode_GetGlobImm, self.globalIdent(base.Ident.Ident())), node.Range)
 				self.insert(newValueInstruction(Opcode_Copy_Push, *value.NewValueInt(int64(len(node.Arguments.List)))), node.Span())
 				self.insert(newPrimitiveInstruction(Opcode_Call_Val), node.Range)
 			}
@@ -221,7 +221,7 @@ func (self *Compiler) compileIdentExpression(node ast.AnalyzedIdentExpression) {
 		)), node.Span())
 	} else {
 		// This value is not a function. Instead, it is a global variable.
-		self.insert(newOneStringInstruction(opCode, node.Ident.Ident()), node.Span())
+		self.insert(newOneStringInstruction(opCode, self.globalIdent(node.Ident.Ident())), node.Span())
 	}
 }
 
@@ -332,7 +332,7 @@ func (self *Compiler) compileExpr(node ast.AnalyzedExpression) {
 			lhs := node.Lhs.(ast.AnalyzedIdentExpression)
 			name, found := self.getMangled(lhs.Ident.Ident())
 			if !found {
-				name = lhs.Ident.Ident()
+				name = self.globalIdent(lhs.Ident.Ident())
 			}
 
 			opCodeGet := Opcode_GetVarImm
